@@ -462,6 +462,32 @@ def run(ctx):
         except Undecided as e:
             ctx.unrecognised(r5, mini, f"minimize [{label}]", f"not interpretable: {e}")
 
+    # minimize COMPOSED with the real _internal_postprocess, on a model configuration that names its parameters and suggests bounds of
+    # its own while the caller passes OTHER bounds: what comes back is the minimiser's point with the fixed values stitched in, and the
+    # minimiser's objective value -- nothing rounds, clips or projects the point afterwards (the statistic built from `fun` would no
+    # longer be the likelihood ratio AT the parameters returned)
+    try:
+        at_ = Poly.atom
+        fr2 = Obj("fitresult", {"x": at_("X"), "fun": at_("FUN")})
+        cfg2 = Obj("config", {"par_names": ["p0", "p1"], "npars": Poly.const(2),
+                              "suggested_bounds": PyFunc(lambda a, k: [(at_("sl0"), at_("sh0")), (at_("sl1"), at_("sh1"))], "suggested_bounds"),
+                              "suggested_init": PyFunc(lambda a, k: [at_("si0"), at_("si1")], "suggested_init"),
+                              "suggested_fixed": PyFunc(lambda a, k: [False, False], "suggested_fixed")})
+        env2 = {"objective": Obj("objective"), "data": Obj("data"), "pdf": Obj("pdf", {"config": cfg2}), "init_pars": [at_("i0"), at_("i1")], "par_bounds": [(at_("l0"), at_("h0")), (at_("l1"), at_("h1"))],
+                "fixed_vals": None, "return_uncertainties": False, "do_grad": False, "do_stitch": False, "kwargs": {}, "return_correlations": False, "return_fitted_val": True, "return_result_obj": False}
+        ext2 = {"shim": lambda a, k: ({}, PyFunc(lambda a2, k2: at_(f"STITCH<{to_poly(a2[0])}>"), "stitch_pars")), "_internal_minimize": lambda a, k: fr2,
+                "get_backend": lambda a, k: (Obj("tb", {"default_do_grad": False}), Obj("opt")),
+                ".clip": lambda recv, a, k: at_(f"CLIP<{to_poly(a[0])}>"), ".minimum": lambda recv, a, k: at_(f"MIN<{to_poly(a[0])}>"), ".maximum": lambda recv, a, k: at_(f"MAX<{to_poly(a[0])}>"),
+                ".where": lambda recv, a, k: at_(f"WHERE<{to_poly(a[1])}>")}
+        out2 = Interp(env2, {}, {}, cls_name="OptimizerMixin", methods={"_internal_postprocess": pp.node}, externals=ext2).run(A.strip_docstring(mini.node.body))
+        got2 = [str(to_poly(x)) for x in out2] if isinstance(out2, tuple) else [str(to_poly(out2))]
+        if got2 == ["STITCH<X>", "FUN"]:
+            ctx.holds(r5, f"{MIX}::minimize -> _internal_postprocess [composed; the model suggests other bounds than the caller passes]", "returns (stitch_pars(minimiser's x), minimiser's fun)")
+        else:
+            ctx.violated(r5, mini, "minimize -> _internal_postprocess (composed)", "the parameters a fit returns are not the minimiser's own point with the fixed values stitched in (they are altered after the minimisation -- clipped into the model's suggested bounds, say -- while the objective value returned is still the minimiser's): a test statistic built from the two fits is no longer the likelihood ratio at the parameters returned, and a best fit outside the suggested range (legitimate under the caller's wider bounds) is silently moved", expected="['STITCH<X>', 'FUN']", found=str(got2))
+    except (Undecided, KeyError, TypeError, ValueError, IndexError, AttributeError) as e:
+        ctx.unrecognised(r5, mini, "minimize -> _internal_postprocess (composed)", f"not interpretable: {type(e).__name__}: {e}")
+
     # ------------------------------------------------------------ R6
     g = CFG.build(imin.node.body)
 
@@ -595,6 +621,46 @@ def _optimizers_interpreted(ctx, rid, repo):
                 ctx.holds(rid, site, f"options {got}; fixed parameter starts at its value; optimizer state untouched")
     except errs as e:
         ctx.unrecognised(rid, sc, "scipy_optimizer._minimize", f"not interpretable: {type(e).__name__}: {e}")
+    # ---- scipy, TWO parameters held constant (the POI of a fixed-POI fit and a parameter the measurement fixes): the equality
+    # constraints handed to the solver, EVALUATED on a probe point, must vanish exactly when every fixed parameter sits at its own
+    # value -- one residual per fixed parameter, not a combination that only pins their sum
+    from .. import listnp as _lnp
+    for lab, dg in (("do_grad=False", False), ("do_grad=True", True)):
+        try:
+            rec2 = []
+            ext_ = dict(_lnp.externals())
+            ext_["__strict__"] = True
+            w2 = World(ext_, module_env={"exceptions": Obj("exceptions"), "np": Obj("np"), "numpy": Obj("numpy")})
+            w2.add_class(sc)
+            inst2 = Instance(sc)
+            inst2.attrs.update({"maxiter": at("DEFAULT_MAXITER"), "verbose": False, "tolerance": None, "solver_options": {}})
+            solver2 = PyFunc(lambda a, k: (rec2.append((a, k)) or Obj("RESULT")), "minimizer")
+            w2.call_method(inst2, "_minimize", [solver2, Obj("FUNC"), [at("x0"), at("x1"), at("x2"), at("x3")]], {"do_grad": dg, "bounds": [(at("l0"), at("h0")), (at("l1"), at("h1")), (at("l2"), at("h2")), (at("l3"), at("h3"))], "fixed_vals": [(c(1), at("v1")), (c(3), at("v3"))], "options": {}})
+            a, k = rec2[-1]
+            cons = k.get("constraints") or []
+            cons = cons if isinstance(cons, (list, tuple)) else [cons]
+            probe = _lnp.T([at("p0"), at("p1"), at("p2"), at("p3")])
+            res = []
+            for cn in cons:
+                if not (isinstance(cn, dict) and cn.get("type") == "eq"):
+                    raise Undecided("a constraint that is not an equality dict")
+                f_ = cn.get("fun")
+                it_ = Interp({}, {}, {}, externals=w2.externals())
+                r_ = it_._call_closure(f_, [probe]) if isinstance(f_, Closure) else (f_.fn([probe], {}) if isinstance(f_, PyFunc) else None)
+                if r_ is None:
+                    raise Undecided("constraint function is not a closure")
+                res += [str(to_poly(y)) for y in (r_ if isinstance(r_, (list, tuple)) else [r_])]
+            want = sorted(["p1 - v1", "p3 - v3"])
+            neg = sorted([str(to_poly(at("v1") - at("p1"))), str(to_poly(at("v3") - at("p3")))])  # the same residuals with the other sign
+            start = [str(to_poly(x)) for x in (a[1] if len(a) > 1 else k.get("x0", []))]
+            if sorted(res) not in (want, neg):
+                ctx.violated(rid, sc.methods["_minimize"], f"equality constraints for two fixed parameters [{lab}]", "the constraints handed to the solver do not pin EACH constant parameter at its own value (one residual per fixed parameter): with a second constant parameter besides the POI only a combination is held, the conditional fit is not at the tested mu and the statistic is not the profile likelihood ratio", expected=str(want), found=str(res))
+            elif start != ["x0", "v1", "x2", "v3"]:
+                ctx.violated(rid, sc.methods["_minimize"], f"start values for two fixed parameters [{lab}]", "a fixed parameter does not start at its fixed value", expected="['x0', 'v1', 'x2', 'v3']", found=str(start))
+            else:
+                ctx.holds(rid, f"{OPT}opt_scipy.py::scipy_optimizer._minimize [two fixed parameters, {lab}]", f"equality residuals {res}; start {start}")
+        except errs as e:
+            ctx.unrecognised(rid, sc, f"scipy_optimizer._minimize [two fixed parameters, {lab}]", f"not interpretable: {type(e).__name__}: {e}")
     # ---- minuit
     mc_ = repo.cls(OPT + "opt_minuit.py", "minuit_optimizer")
     for lab, vfix in (("fixed value inside its bounds", F_(2)), ("fixed value ON its lower bound", F_(0)), ("fixed value ON its upper bound", F_(10))):
